@@ -383,14 +383,3 @@ Theorem C07_overriding_subclass_outside_blocks : forall ov clk l st,
   no_blocks l = true -> pcts (pb_run_sub true ov clk st l) = pcts (pb_run clk st l).
 Proof. exact overriding_sub_outside_blocks. Qed.
 Print Assumptions C07_overriding_subclass_outside_blocks.
-
-(* KNOWN DEFECT (finding subclass-cpu_times-override-breaks-oneshot): oneshot() activates its caches
-   through the public names -- the table shows it -- so entering a block with an overriding
-   subclass raises AttributeError *)
-Theorem C07_oneshot_dispatches_through_public_names_refuted :
-  existsb (fun m => String.eqb (fst m) "oneshot"%string
-                    && existsb (fun u => String.eqb (fst (fst u)) "cpu_times.cache_activate"%string
-                                         && match snd u with KPublic => true | _ => false end) (snd m)) c07_self_uses = true
-  /\ exists clk l ov, pb_run_sub true ov clk pb_init l = [Exc AttributeError] /\ spec_pb_run clk g_init l = [].
-Proof. split; [vm_compute; reflexivity|exact override_breaks_block_entry_refuted]. Qed.
-Print Assumptions C07_oneshot_dispatches_through_public_names_refuted.
